@@ -507,6 +507,12 @@ func (t *Taint) run(fn *ssa.Function, params map[*ssa.Parameter]bool, record boo
 							o[k] = false
 						}
 					}
+					// tainted parameters are not in the state until something mentions them
+					for p, tv := range r.params {
+						if tv {
+							o[p] = false
+						}
+					}
 				}
 			}
 			outs[ek{b, si}] = o
